@@ -123,7 +123,8 @@ impl Engine {
     }
 }
 
-pub const KINDS: [&str; 6] = ["tracked", "plain", "string", "large", "zstkey", "zstval"];
+pub const KINDS: [&str; 8] = ["tracked", "plain", "string", "large", "zstkey", "zstval", "nodrop", "zstboth"];
+pub const NKINDS: u8 = 8;
 
 /// Compiled capacities for single-container engines.
 pub const CAPS: [usize; 8] = [0, 1, 2, 3, 4, 6, 9, 17];
